@@ -263,7 +263,7 @@ package mysql
 // ghost record of the last frame header read from the transport: its sequence id and payload length
 //@ ghost hdrSeq uint8
 //@ ghost hdrLen int
-//@ property C11: (*Conn).readHeaderFrom, (*Conn).readOnePacket, (*Conn).readPacket, (*Conn).ReadEphemeralPacket, (*Conn).getReader, (*Conn).getWriter, (*Conn).WritePacket
+//@ property C11: (*Conn).readHeaderFrom, (*Conn).readOnePacket, (*Conn).readPacket, (*Conn).ReadEphemeralPacket, (*Conn).ReadEphemeralPacketDirect, (*Conn).getReader, (*Conn).getWriter, (*Conn).WritePacket
 
 // A frame header is accepted only if its sequence id is the expected one; the expected id then advances by one (mod 256)
 // and the 24-bit little-endian payload length is returned.
@@ -490,3 +490,14 @@ package mysql
 //@   loop 2 invariant case apart uses frame, rowsA, shape: forall(i, 0, len(r.RowDatas), allocated(r.RowDatas[i]) && !sameArray(r.RowDatas[i], row) && !sameArray(r.RowDatas[i], nullBitMap))
 //@   loop 2 invariant case bits uses frame: forall(j, 0, rangeindex + 1, bitAt(nullBitMap, j + 2) == (v[j] == nil)) && forall(q, rangeindex + 3, bitmapLen * 8, !bitAt(nullBitMap, q)) && !bitAt(nullBitMap, 0) && !bitAt(nullBitMap, 1)
 //@   ensures case rows: ret1 == nil ==> ret0 != nil && len(ret0.RowDatas) == len(values) && forall(i, 0, len(values), len(ret0.RowDatas[i]) >= 1 + ((len(fields) + 9) >> 3) && ret0.RowDatas[i][0] == 0 && len(values[i]) == len(fields))
+
+// the handshake read (no buffering, single frame only): one short frame, or an error for anything longer
+//@ func (*Conn).ReadEphemeralPacketDirect
+//@   mode bv
+//@   requires c != nil
+//@   may-panic when c.currentEphemeralPolicy != 0
+//@   ghost-update at entry: rdFrames = 0, rdTotal = 0, rdLast = 0
+//@   ghost-update after call readHeaderFrom#0: rdFrames = rdFrames + ite(ret1 == nil, 1, 0), rdTotal = rdTotal + ite(ret1 == nil, ret0, 0), rdLast = ret0
+//@   ensures case sequence: ret1 == nil ==> c.sequence == old(c.sequence) + 1 && rdFrames == 1
+//@   ensures case short:    ret1 == nil ==> len(ret0) == rdLast && 0 <= rdLast && rdLast < 16777215
+//@   ensures case failed:   ret1 != nil ==> ret0 == nil
